@@ -210,4 +210,353 @@ example : (frFeed {} (frEncode 6 1 (ofString "ab") [0, 0, 0] ++ frEncode 7 1 (of
       frEncode 6 1 (ofString "c") [0] ++ frEncode 3 1 [0, 0, 0, 0, 0, 0, 0, 0] [])).evs =
     [.stdout (ofString "ab"), .stderr (ofString "x"), .stdout (ofString "c"), .endRequest] := by decide
 
+/-! ## the relay composite (Model/BackendResp.lean) -/
+
+/-- **Segmentation of the response head is irrelevant.**  While the head received so far is
+    incomplete and undecided (parsing the accumulated bytes changes nothing and asks for more),
+    receiving `a` and then `b` is the same as receiving `a ++ b` in one read — so, by induction,
+    every composition of the head into reads gives the same result. -/
+theorem c10_head_segmentation (cfg : Cfg) (st : St) (a b : Bytes) (hbe : cfg.be ≠ .fcgi)
+    (hc : st.cstate = .handle) (ho : st.open_ = true) (hs : st.started = false) (hf : st.finished = false)
+    (hh : st.handler = true) (ha : a ≠ []) (hb : b ≠ [])
+    (hinc : headerStep cfg st a = ({ st with hbuf := st.hbuf ++ a }, .goOn)) :
+    onData cfg (onData cfg st a) b = onData cfg st (a ++ b) := by
+  rw [onData_incomplete cfg st { st with hbuf := st.hbuf ++ a } a hbe hc ho hs hh ha hinc hs hf hc ho]
+  have hb' : b.isEmpty = false := by cases b <;> simp_all
+  have hab' : (a ++ b).isEmpty = false := by cases a <;> simp_all
+  have hl : lostHandler st = false := by simp [lostHandler, hh]
+  have hl2 : lostHandler ({ st with hbuf := st.hbuf ++ a } : St) = false := by simp [lostHandler, hh]
+  have hr : gwRecvData cfg { st with hbuf := st.hbuf ++ a } b = gwRecvData cfg st (a ++ b) := by
+    unfold gwRecvData
+    rw [if_neg hbe, if_neg hbe]
+    unfold readPlain
+    rw [if_pos (by simp [hs]), if_pos (by simp [hs]), headerStep_append]
+  unfold onData
+  rw [if_neg (by simp [hc, ho, hb']), if_neg (by simp [hl2]), if_neg (by simp [hc, ho, hab']), if_neg (by simp [hl]), hr]
+
+
+/-- **Segmentation of a Content-Length / EOF-delimited body is irrelevant** as long as lighttpd
+    does not itself chunk-encode: body accounting (remaining Content-Length, silent truncation of
+    excess bytes, completion) and the bytes queued for the client are the same for `a` then `b`
+    as for `a ++ b`. -/
+theorem c10_body_segmentation_plain (st : St) (a b : Bytes)
+    (hd : st.decodeChunked = false) (hsc : st.sendChunked = false) :
+    (appendMem (appendMem st a).1 b).1 = (appendMem st (a ++ b)).1 := by
+  rw [appendMem_plain st a hd hsc, appendMem_plain st (a ++ b) hd hsc]
+  by_cases h1 : st.scratch > 0
+  · simp only [h1, if_true]
+    by_cases h2 : st.scratch - (a.length : Int) ≤ 0
+    · have h3 : st.scratch - ((a ++ b).length : Int) ≤ 0 := by simp; omega
+      have ht : (a ++ b).take st.scratch.toNat = a.take st.scratch.toNat := by
+        rw [List.take_append_of_le_length (by omega)]
+      simp only [h2, h3, if_true, ht]
+      rw [appendMem_plain _ b (by simpa using hd) (by simpa using hsc)]
+      simp
+    · have hlen : ((a ++ b).length : Int) = a.length + b.length := by simp
+      simp only [h2, if_false]
+      rw [appendMem_plain _ b (by simpa using hd) (by simpa using hsc)]
+      have hpos : st.scratch - (a.length : Int) > 0 := by omega
+      simp only [hpos, if_true]
+      by_cases h4 : st.scratch - (a.length : Int) - (b.length : Int) ≤ 0
+      · have h5 : st.scratch - ((a ++ b).length : Int) ≤ 0 := by omega
+        have ht : (a ++ b).take st.scratch.toNat = a ++ b.take (st.scratch - a.length).toNat := by
+          rw [List.take_append]
+          have : a.take st.scratch.toNat = a := List.take_of_length_le (by omega)
+          rw [this]
+          congr 2
+          omega
+        rw [if_pos (by simpa using h4), if_pos h5, ht]
+        simp
+      · have h5 : ¬ (st.scratch - ((a ++ b).length : Int) ≤ 0) := by omega
+        rw [if_neg (by simpa using h4), if_neg h5]
+        simp [Int.sub_sub]
+  · simp only [h1, if_false]
+    by_cases h2 : st.scratch = 0
+    · simp only [h2, if_true]
+      rw [appendMem_plain _ b hd hsc]
+      simp [h2]
+    · simp only [h2, if_false]
+      rw [appendMem_plain _ b (by simpa using hd) (by simpa using hsc)]
+      simp [h1, h2]
+
+
+
+/-- **End-to-end fields are relayed verbatim.**  Ordinary response fields (`name ": " value CRLF`,
+    name not one of the fields lighttpd interprets itself, no whitespace before the colon) whose
+    names differ from each other and from what is already stored are handed to the client-side
+    response head in the order received, name spelling and value bytes untouched. -/
+theorem c10_fields_relayed (cfg : Cfg) (st : St) (fs : List (Bytes × Bytes))
+    (hp : ∀ f ∈ fs, PlainField f.1 f.2)
+    (hnd : ((st.headers ++ fs).map fun kv => lower kv.1).Nodup) :
+    (fs.map fun f => fieldLine f.1 f.2).foldl (applyLine cfg) st = { st with headers := st.headers ++ fs } := by
+  rw [foldl_applyLine_plain cfg fs st hp,
+      foldl_hdrInsert_fresh _ fs st.headers (fun f hf => (hp f hf).vne) hnd]
+
+/-- **Hop-by-hop fields of the backend connection are not relayed**: Upgrade (upgrade not
+    enabled) and HTTP2-Settings from any backend, Connection from a proxy backend or towards an
+    HTTP/2 client never reach the client-side field list; Transfer-Encoding is consumed (it turns
+    on the chunked decoder and removes a Content-Length received before it). -/
+theorem c10_hop_by_hop_not_relayed (cfg : Cfg) (st : St) (k v : Bytes) :
+    (lower k = nUpgrade → applyField cfg st k v = st) ∧
+    (lower k = nHttp2Settings → applyField cfg st k v = st) ∧
+    (lower k = nConnection → (cfg.be = .proxy ∨ cfg.ver ≥ 2) → applyField cfg st k v = st) ∧
+    (lower k = nTransferEncoding → (applyField cfg st k v).decodeChunked = true ∧
+       (applyField cfg st k v).headers =
+         (if hasHdr st.headers nContentLength then hdrUnset st.headers nContentLength else st.headers) ∧
+       (applyField cfg st k v).scratch = (if hasHdr st.headers nContentLength then -1 else st.scratch)) := by
+  refine ⟨?_, ?_, ?_, ?_⟩
+  · intro h
+    have : ¬ (nUpgrade = nStatus) := by decide
+    simp [applyField, h, this]
+  · intro h
+    have h1 : ¬ (nHttp2Settings = nStatus) := by decide
+    have h2 : ¬ (nHttp2Settings = nUpgrade) := by decide
+    have h3 : ¬ (nHttp2Settings = nConnection) := by decide
+    have h4 : ¬ (nHttp2Settings = nContentType) := by decide
+    have h5 : ¬ (nHttp2Settings = nContentLength) := by decide
+    have h6 : ¬ (nHttp2Settings = nTransferEncoding) := by decide
+    simp [applyField, h, h1, h2, h3, h4, h5, h6]
+  · intro h hc
+    have h1 : ¬ (nConnection = nStatus) := by decide
+    have h2 : ¬ (nConnection = nUpgrade) := by decide
+    rcases hc with hc | hc
+    · simp [applyField, h, h1, h2, hc]
+    · by_cases hp : cfg.be = .proxy
+      · simp [applyField, h, h1, h2, hp]
+      · simp [applyField, h, h1, h2, hp, hc]
+  · intro h
+    have h1 : ¬ (nTransferEncoding = nStatus) := by decide
+    have h2 : ¬ (nTransferEncoding = nUpgrade) := by decide
+    have h3 : ¬ (nTransferEncoding = nConnection) := by decide
+    have h4 : ¬ (nTransferEncoding = nContentType) := by decide
+    have h5 : ¬ (nTransferEncoding = nContentLength) := by decide
+    unfold applyField
+    simp only [h, h1, h2, h3, h4, h5, if_false, if_true]
+    by_cases hcl : hasHdr st.headers nContentLength = true <;> simp [hcl]
+
+
+/-- **Failure before the response head is complete ⇒ 5xx.**  Whatever the backend has sent so far,
+    as long as its response head is not complete (nothing relayed yet), every way the backend
+    stream can end — EOF, reset, socket error, hang-up, for FastCGI also EOF without
+    END_REQUEST — makes lighttpd answer with its own complete `500` response (error document,
+    keep-alive as negotiated): HTTP/1.0 and HTTP/1.1 clients. -/
+theorem c10_failure_before_head_is_5xx (cfg : Cfg) (st : St) (e : End)
+    (hv : cfg.ver ≤ 1) (hc : st.cstate = .handle) (ho : st.open_ = true) (hs : st.started = false)
+    (hh : st.handler = true) (hst : st.status = 0) (he : e ≠ .none) (hfe : st.fcgi.ended = false) :
+    (onEnd cfg st e).status = 500 ∧ (onEnd cfg st e).cstate = .done ∧
+    (onEnd cfg st e).keepAlive = st.keepAlive ∧
+    ∃ fields, (onEnd cfg st e).evs = pushW st.evs
+      (h1StatusLine cfg 500 ++ fields ++ crlf ++ crlf ++ (if cfg.head then [] else errorPage 500)) := by
+  rw [onEnd_active cfg st e (Or.inl hc) ho he (by simp [lostHandler, hh]),
+      gwRecvEnd_pre cfg st e hc hs hh hst he hfe]
+  generalize hst1 : ({ st with open_ := false, status := 500, handler := false } : St) = st1
+  have s1 : st1.status = 500 := by rw [← hst1]
+  have s2 : st1.handler = false := by rw [← hst1]
+  have s3 : st1.cstate = .handle := by rw [← hst1]; exact hc
+  have s4 : st1.open_ = false := by rw [← hst1]
+  have s5 : st1.keepAlive = st.keepAlive := by rw [← hst1]
+  have s6 : st1.evs = st.evs := by rw [← hst1]
+  obtain ⟨w1, w2, w3, w4, w5, w6, w7⟩ := writePrepare_errdoc cfg st1 s2 (by omega) (by omega)
+  have hstart : conStep cfg st1 = startResponse cfg st1 := by
+    unfold conStep
+    simp [s3, handlerStarts, subrequestWaits, s4]
+  rw [hstart]
+  obtain ⟨r1, r2, r3, r4⟩ := startResponse_h1_finished cfg st1 hv (by omega) w7
+  refine ⟨by rw [r2, w1, s1], r1, by rw [r3, w2, s5], ⟨h1FieldLines (h1HeaderSet cfg (writePrepare cfg st1)), ?_⟩⟩
+  rw [r4, w1, w3, w4, s1, s6]
+
+
+/-- **Backend failure after the response head was sent ⇒ the message is visibly aborted**
+    (HTTP/1.x).  In the write state (response head already on the wire, body not finished) a
+    reset / socket error of the backend connection — for FastCGI also EOF or hang-up before
+    END_REQUEST — never completes the message: nothing is appended to what was queued (in
+    particular no last-chunk), keep-alive is cleared and the response ends, i.e. the connection
+    is closed after an incomplete message.  Holds for every backend kind, every body framing and
+    every history that led to the state. -/
+theorem c10_failure_after_head_aborts (cfg : Cfg) (st : St) (e : End)
+    (hv : cfg.ver ≤ 1) (hc : st.cstate = .write) (ho : st.open_ = true) (hs : st.started = true)
+    (_hf : st.finished = false)
+    (he : e = .rst ∨ e = .err ∨ (cfg.be = .fcgi ∧ (e = .eof ∨ e = .hup) ∧ st.fcgi.ended = false)) :
+    (onEnd cfg st e).keepAlive = false ∧ (onEnd cfg st e).cstate = .done ∧
+    (onEnd cfg st e).handler = false ∧ (onEnd cfg st e).evs = pushW st.evs st.wq := by
+  have hne : e ≠ .none := by rcases he with h | h | ⟨_, h | h, _⟩ <;> simp [h]
+  have hv2 : ¬ (cfg.ver ≥ 2) := by omega
+  rw [onEnd_active cfg st e (Or.inr hc) ho hne (by simp [lostHandler, hc])]
+  have hg : gwRecvEnd cfg st e = { st with open_ := false, handler := false, keepAlive := false, finished := true } := by
+    rcases he with h | h | ⟨hb, h | h, hfe⟩
+    · subst h; simp [gwRecvEnd, gwBackendError, gwClose, backendError, hs]
+    · subst h; simp [gwRecvEnd, gwBackendError, gwClose, backendError, hs]
+    · subst h; simp [gwRecvEnd, gwBackendError, gwClose, backendError, hs, hb, hfe]
+    · subst h; simp [gwRecvEnd, gwBackendError, gwClose, backendError, hs, hb, hfe]
+  rw [hg]
+  simp [conStep, hc, hv2, h1Progress, flush]
+
+/-- **A Content-Length body cut short by backend EOF closes the connection** (HTTP/1.x): fewer
+    bytes than announced were received (`scratch > 0`) when the backend closes — before or after the
+    response head was sent —, so keep-alive is cleared; with the head not yet sent the client gets
+    `Connection: close` and the (too large) Content-Length, so the truncation is visible either way.
+    (This is the behaviour the property demands; the pinned C keeps the connection alive.) -/
+theorem c10_truncated_content_length_closes (cfg : Cfg) (st : St)
+    (hbe : cfg.be ≠ .fcgi) (hh : st.handler = true)
+    (hc : st.cstate = .handle ∨ st.cstate = .write)
+    (hs : st.started = true) (hf : st.finished = false) (hsc : st.scratch > 0) (hnc : st.sendChunked = false) :
+    (gwRecvEnd cfg st .eof).keepAlive = false ∧ (gwRecvEnd cfg st .eof).finished = true ∧
+    (gwRecvEnd cfg st .eof).wq = st.wq ∧ (gwRecvEnd cfg st .eof).scratch = st.scratch := by
+  have hnd : ¬ (st.cstate = .done) := by rcases hc with h | h <;> simp [h]
+  by_cases hv : cfg.ver = 1 <;>
+    simp [gwRecvEnd, hbe, gwClose, hh, backendDone, hnd, hs, hf, hsc, chunkClose, hnc, hv]
+
+/-- **A chunked backend body cut short by backend EOF is never terminated towards the client**
+    (HTTP/1.1, chunked encoding passed through): the decoder is not done when the backend closes,
+    so no last-chunk is written and keep-alive is cleared — the client sees an unterminated
+    chunked message followed by connection close. -/
+theorem c10_truncated_chunked_closes (cfg : Cfg) (st : St) (d : DcSt)
+    (hbe : cfg.be ≠ .fcgi) (hv : cfg.ver = 1) (hc : st.cstate = .write) (ho : st.open_ = true)
+    (hh : st.handler = true) (hs : st.started = true) (hf : st.finished = false)
+    (hsc : st.sendChunked = true) (hd : st.dc = some d) (hdd : st.dcDone = 0) :
+    (onEnd cfg st .eof).keepAlive = false ∧ (onEnd cfg st .eof).cstate = .done ∧
+    (onEnd cfg st .eof).evs = pushW st.evs st.wq := by
+  have hv2 : ¬ (cfg.ver ≥ 2) := by omega
+  rw [onEnd_active cfg st .eof (Or.inr hc) ho (by simp) (by simp [lostHandler, hc])]
+  have hg : gwRecvEnd cfg st .eof = { st with open_ := false, keepAlive := false, finished := true } := by
+    by_cases hsp : st.scratch > 0 <;>
+      simp [gwRecvEnd, hbe, gwClose, hh, backendDone, hc, hs, hf, chunkClose, hsc, hd, hdd, hv, hsp]
+  rw [hg]
+  simp [conStep, hc, hv2, h1Progress, flush]
+
+/-- **Clean EOF completes an EOF-delimited body** (HTTP/1.1, lighttpd chunk-encodes): the
+    last-chunk is written exactly then, keep-alive stays as it was. -/
+theorem c10_clean_eof_terminates_chunked (cfg : Cfg) (st : St)
+    (hbe : cfg.be ≠ .fcgi) (hv : cfg.ver = 1) (hc : st.cstate = .write) (ho : st.open_ = true)
+    (hh : st.handler = true) (hs : st.started = true) (hf : st.finished = false)
+    (hsc : st.sendChunked = true) (hd : st.dc = none) (hsp : st.scratch < 0) :
+    (onEnd cfg st .eof).keepAlive = st.keepAlive ∧ (onEnd cfg st .eof).cstate = .done ∧
+    (onEnd cfg st .eof).evs = pushW st.evs (st.wq ++ ofString "0\r\n\r\n") := by
+  have hv2 : ¬ (cfg.ver ≥ 2) := by omega
+  have hsp2 : ¬ (st.scratch > 0) := by omega
+  rw [onEnd_active cfg st .eof (Or.inr hc) ho (by simp) (by simp [lostHandler, hc])]
+  have hg : gwRecvEnd cfg st .eof =
+      { st with open_ := false, finished := true, wq := st.wq ++ ofString "0\r\n\r\n" } := by
+    simp [gwRecvEnd, hbe, gwClose, hh, backendDone, hc, hs, hf, chunkClose, hsc, hd, hv, hsp2]
+  rw [hg]
+  simp [conStep, hc, hv2, h1Progress, flush]
+
+
+
+/-- **A kept-alive HTTP/1.x response always announces its length** (failure isolation): after
+    http_response_write_prepare(), for a response that may carry a body (not HEAD, not 204/304),
+    keep-alive survives only if Content-Length, Transfer-Encoding or Upgrade is set — a response
+    whose end the client could only recognise by connection close never leaves the connection
+    open for the next request. -/
+theorem c10_keepalive_requires_framing (cfg : Cfg) (st : St) (hv : cfg.ver ≤ 1) (hh : cfg.head = false)
+    (hk : (writePrepare cfg st).keepAlive = true) :
+    (writePrepare cfg st).status = 204 ∨ (writePrepare cfg st).status = 304 ∨
+    hasHdr (writePrepare cfg st).headers nContentLength = true ∨
+    hasHdr (writePrepare cfg st).headers nTransferEncoding = true ∨
+    hasHdr (writePrepare cfg st).headers nUpgrade = true :=
+  writePrepare_keepalive_framed cfg st hv hh hk
+
+/-! ## the planned top-level statements, assembled from the parts above -/
+
+/-- `c10_segmentation` of DESIGN §6: the three automata (chunked decoder, FastCGI reassembly, plain
+    body accounting) give the same result for one piece `a ++ b` as for `a` followed by `b`;
+    the response head is covered by `c10_head_segmentation`. -/
+theorem c10_segmentation (d : DcSt) (f : FrSt) (st : St) (a b : Bytes)
+    (hd : st.decodeChunked = false) (hsc : st.sendChunked = false) :
+    dcFeed (dcFeed d a) b = dcFeed d (a ++ b) ∧ frFeed (frFeed f a) b = frFeed f (a ++ b) ∧
+    (appendMem (appendMem st a).1 b).1 = (appendMem st (a ++ b)).1 :=
+  ⟨c10_dechunk_segmentation d a b, c10_fcgi_segmentation f a b, c10_body_segmentation_plain st a b hd hsc⟩
+
+/-- `c10_broken_never_complete` of DESIGN §6, the part that holds of the code (HTTP/1.x): when the
+    backend connection fails (reset / socket error), then
+    * before the backend's response head is complete the client gets lighttpd's own `500`;
+    * after the client-side response head has been written the message is aborted: nothing more
+      is written (no last-chunk, no further body bytes) and the connection is closed.
+    MISSING for the full statement (and false of the code, see
+    `c10_buffered_failure_looks_complete_witness`): a failure after the backend head was parsed
+    but before the client head was written (stream-response-body = 0, or the failure hits in the
+    read that completed the head) yields a 200 with a computed Content-Length; HTTP/2 streams end
+    with END_STREAM. -/
+theorem c10_broken_never_complete_partial (cfg : Cfg) (st : St) (e : End) (hv : cfg.ver ≤ 1)
+    (ho : st.open_ = true) (he : e = .rst ∨ e = .err)
+    (hst : (st.cstate = .handle ∧ st.started = false ∧ st.handler = true ∧ st.status = 0 ∧
+            st.fcgi.ended = false) ∨
+           (st.cstate = .write ∧ st.started = true ∧ st.finished = false)) :
+    ((onEnd cfg st e).status = 500 ∧ (onEnd cfg st e).cstate = .done) ∨
+    ((onEnd cfg st e).keepAlive = false ∧ (onEnd cfg st e).cstate = .done ∧
+     (onEnd cfg st e).evs = pushW st.evs st.wq) := by
+  have hne : e ≠ .none := by rcases he with h | h <;> simp [h]
+  rcases hst with ⟨hc, hs, hh, h0, hfe⟩ | ⟨hc, hs, hf⟩
+  · left
+    obtain ⟨a, b, _, _⟩ := c10_failure_before_head_is_5xx cfg st e hv hc ho hs hh h0 hne hfe
+    exact ⟨a, b⟩
+  · right
+    obtain ⟨a, b, _, d⟩ := c10_failure_after_head_aborts cfg st e hv hc ho hs hf
+      (by rcases he with h | h <;> simp [h])
+    exact ⟨a, b, d⟩
+
+/-- The full `c10_broken_never_complete` is FALSE of the code: with stream-response-body = 0 a
+    chunked backend response that the backend cuts off after the first chunk (no last-chunk, EOF)
+    reaches the HTTP/1.1 client as a complete `200` with `Content-Length: 5` on a kept-alive
+    connection; an EOF-delimited response whose backend connection is reset is likewise presented
+    with a computed Content-Length (`Connection: close`).  (Reported by the check as a violation.) -/
+theorem c10_buffered_failure_looks_complete_witness :
+    (relay { be := .proxy, ver := 1, stream := 0 }
+       [ofString "HTTP/1.1 200 OK\r\nTransfer-Encoding: chunked\r\n\r\n5\r\nhello\r\n"] .eof).evs =
+      [.w (ofString "HTTP/1.1 200 OK\r\nContent-Length: 5\r\nDate: Sun, 09 Sep 2001 01:46:40 GMT\r\n\r\nhello")] ∧
+    (relay { be := .proxy, ver := 1, stream := 0 }
+       [ofString "HTTP/1.1 200 OK\r\nTransfer-Encoding: chunked\r\n\r\n5\r\nhello\r\n"] .eof).keepAlive = true ∧
+    (relay { be := .scgi, ver := 1, stream := 0 } [ofString "Status: 200\r\n\r\nhel"] .rst).evs =
+      [.w (ofString ("HTTP/1.1 200 OK\r\nContent-Length: 3\r\nConnection: close\r\n" ++
+                     "Date: Sun, 09 Sep 2001 01:46:40 GMT\r\n\r\nhel"))] := by
+  refine ⟨by decide, by decide, by decide⟩
+
+/-! non-vacuity of the composite theorems: concrete reachable states / complete runs -/
+
+/-- the state after the backend sent part of a response head -/
+example : let st := onData { be := .proxy, ver := 1, stream := 1 } {} (ofString "HTTP/1.1 200 OK\r\nConte")
+    st.cstate = .handle ∧ st.open_ = true ∧ st.started = false ∧ st.handler = true ∧ st.status = 0 ∧
+    st.fcgi.ended = false ∧ st.finished = false := by decide
+set_option maxRecDepth 100000 in
+example : (relay { be := .proxy, ver := 1, stream := 1 } [ofString "HTTP/1.1 200 OK\r\nConte"] .rst).status = 500 := by
+  decide
+/-- `c10_head_segmentation`: the hypothesis "still incomplete, nothing decided" -/
+example : headerStep { be := .proxy, ver := 1 } {} (ofString "HTTP/1.1 2") =
+    ({ hbuf := ofString "HTTP/1.1 2" }, .goOn) := by decide
+/-- the state after head and part of a Content-Length body were relayed in streaming mode -/
+example : let st := onData { be := .proxy, ver := 1, stream := 1 } {}
+                      (ofString "HTTP/1.1 200 OK\r\nContent-Length: 5\r\n\r\nhel")
+    st.cstate = .write ∧ st.open_ = true ∧ st.started = true ∧ st.finished = false ∧ st.handler = true ∧
+    st.scratch > 0 ∧ st.sendChunked = false ∧ st.decodeChunked = false := by decide
+/-- ... of a chunked body passed through (decoder not done), and of an EOF-delimited body -/
+example : let st := onData { be := .proxy, ver := 1, stream := 1 } {}
+                      (ofString "HTTP/1.1 200 OK\r\nTransfer-Encoding: chunked\r\n\r\n5\r\nhel")
+    st.cstate = .write ∧ st.open_ = true ∧ st.started = true ∧ st.finished = false ∧ st.handler = true ∧
+    st.sendChunked = true ∧ st.dc.isSome = true ∧ st.dcDone = 0 := by decide
+example : let st := onData { be := .scgi, ver := 1, stream := 1 } {} (ofString "Status: 200\r\n\r\nhel")
+    st.cstate = .write ∧ st.open_ = true ∧ st.started = true ∧ st.finished = false ∧ st.handler = true ∧
+    st.sendChunked = true ∧ st.dc = none ∧ st.scratch < 0 := by decide
+/-- complete runs: a Content-Length response, a chunked response with a trailer (buffered: merged into
+    the head, without CR), an interim response, a truncated Content-Length body (connection closed) -/
+example : (relay { be := .proxy, ver := 1, stream := 0 }
+      [ofString "HTTP/1.1 200 OK\r\nX-A: b\r\nContent-Le", ofString "ngth: 2\r\n\r\nok"] .eof).evs =
+    [.w (ofString "HTTP/1.1 200 OK\r\nX-A: b\r\nContent-Length: 2\r\nDate: Sun, 09 Sep 2001 01:46:40 GMT\r\n\r\nok")] := by
+  decide
+example : (relay { be := .proxy, ver := 1, stream := 0 }
+      [ofString "HTTP/1.1 200 OK\r\nTransfer-Encoding: chunked\r\nTrailer: X-T\r\n\r\n2\r\nok\r\n0\r\nX-",
+       ofString "T: v\r\n\r\n"] .eof).evs =
+    [.w (ofString "HTTP/1.1 200 OK\r\nX-T: v\r\nContent-Length: 2\r\nDate: Sun, 09 Sep 2001 01:46:40 GMT\r\n\r\nok")] := by
+  decide
+set_option maxRecDepth 100000 in
+example : (relay { be := .proxy, ver := 1, stream := 1 }
+      [ofString "HTTP/1.1 103 Early Hints\r\nLink: </a>\r\n\r\nHTTP/1.1 200 OK\r\nContent-Length: 2\r\n\r\nok"] .eof).evs =
+    [.w (ofString ("HTTP/1.1 103 Early Hints\r\nLink: </a>\r\n\r\nHTTP/1.1 200 OK\r\nContent-Length: 2\r\n" ++
+                   "Date: Sun, 09 Sep 2001 01:46:40 GMT\r\n\r\nok"))] := by decide
+example : (relay { be := .proxy, ver := 1, stream := 1 }
+      [ofString "HTTP/1.1 200 OK\r\nContent-Length: 5\r\n\r\nhel"] .eof).keepAlive = false := by decide
+example : PlainField (ofString "X-Foo") (ofString "bar baz") :=
+  ⟨by decide, by decide, by decide, by decide, by decide, by decide⟩
+example : ((([] : List (Bytes × Bytes)) ++ [(ofString "X-Foo", ofString "a"), (ofString "ETag", ofString "\"x\"")]).map
+    fun kv => lower kv.1).Nodup := by decide
+
 end LtVerif.C10
